@@ -181,6 +181,11 @@ func (r *schemaLoader) load(refURL *url.URL) (interface{}, url.URL, bool, error)
 		return data, toFetch, fromCache, nil
 	}
 
+	// the built-in meta-schemas are at hand whatever cache the caller supplied, just like with no cache at all
+	if builtin, isBuiltin := resCache.Get(normalized); isBuiltin {
+		return builtin, toFetch, true, nil
+	}
+
 	b, err := r.context.loadDoc(normalized)
 	if err != nil {
 		return nil, url.URL{}, false, err
